@@ -237,4 +237,46 @@ theorem stackEdge_high {c nt k a b : Nat} (hn : 1 ≤ nt) (h : StackEdge c nt k 
     simp only [RingEdge, Bwd] at h ⊢
     omega
 
+/-! ## hemisphere: a stack of rings from the equator (circle `0`) closed by the polar fan -/
+
+/-- edges of `unit_hemisphere(ntheta, p)`: a stack of `p - 1` rings from the equator (circle `0`) and the polar fan -/
+def HemiEdge (nt p a b : Nat) : Prop :=
+  StackEdge 0 nt (p - 1) a b ∨ FanEdge ((p - 1) * nt) ((p - 1) * nt + nt) nt a b
+
+/-- the hemisphere is closed up to its equator, traversed backwards -/
+theorem hemiEdge_swap {nt p a b : Nat} (h : HemiEdge nt p a b) : HemiEdge nt p b a ∨ Bwd 0 nt a b := by
+  rcases h with h | h
+  · rcases stackEdge_swap h with h | h | h
+    · exact Or.inl (Or.inl h)
+    · exact Or.inr h
+    · left; right; exact fanEdge_of_bwd (by simpa using h)
+  · rcases fanEdge_swap h with h | h
+    · exact Or.inl (Or.inr h)
+    · rcases hq : p - 1 with _ | q
+      · rw [hq] at h; right; simpa using h
+      · left; left; rw [hq] at h ⊢; exact stackEdge_of_fwd (by omega) (by simpa using h)
+
+theorem hemiEdge_of_bwd {nt p a b : Nat} (h : Bwd 0 nt a b) : HemiEdge nt p a b := by
+  rcases hq : p - 1 with _ | q
+  · right; rw [hq]; exact fanEdge_of_bwd (by simpa using h)
+  · left; rw [hq]; exact stackEdge_of_bwd (by omega) h
+
+theorem hemiEdge_bounds {nt p a b : Nat} (hn : 3 ≤ nt) (h : HemiEdge nt p a b) :
+    a < (p - 1) * nt + nt + 1 ∧ b < (p - 1) * nt + nt + 1 ∧ a ≠ b := by
+  rcases h with h | h
+  · have := stackEdge_bounds (by omega) h; omega
+  · simp only [FanEdge, Bwd] at h; omega
+
+/-- the only hemisphere edges inside the equator are the equator's backward edges -/
+theorem hemiEdge_low {nt p a b : Nat} (h : HemiEdge nt p a b) (ha : a < nt) (hb : b < nt) : Bwd 0 nt a b := by
+  rcases h with h | h
+  · exact stackEdge_low h (by omega) (by omega)
+  · rcases hq : p - 1 with _ | q
+    · rw [hq] at h; simp only [FanEdge, Nat.zero_mul, Nat.zero_add] at h
+      rcases h with h | h | h
+      · omega
+      · omega
+      · exact h
+    · rw [hq] at h; simp only [FanEdge, Bwd, Nat.add_mul, Nat.one_mul] at h; omega
+
 end C19
